@@ -514,6 +514,112 @@ pub fn ddmin(path: &str) {
     println!("ddmin: done, {} steps", c.recipe.len());
 }
 
+
+// ---------------------------------------------------------------------------------------------
+// C01: replicas built through generated sync topologies
+
+#[derive(Clone, Debug, Serialize, Deserialize)]
+pub struct TopoCase {
+    pub recipe: Vec<Step>,
+    /// per replica: subset selector and delivery script
+    pub replicas: Vec<(u16, Script)>,
+    /// ordered (requester, responder) pairs
+    pub syncs: Vec<(u8, u8)>,
+}
+
+pub fn topo_case() -> impl Strategy<Value = TopoCase> {
+    (
+        strategies::recipe(45, 1, 2),
+        prop::collection::vec((any::<u16>(), script_strategy()), 3..5),
+        prop::collection::vec((0u8..4, 0u8..4), 4..24),
+    )
+        .prop_map(|(recipe, replicas, syncs)| TopoCase { recipe, replicas, syncs })
+}
+
+/// Replicas that end up holding the same committed commands, whichever peers they got them from and in
+/// whatever order, must report the same heads, facts and hello head (and match the reference model).
+pub fn check_topology(c: &TopoCase, info: &mut CaseInfo) -> CheckResult {
+    let w = World::from_recipe(&c.recipe, HONEST);
+    let n = c.replicas.len();
+    let mut reps: Vec<MemReplica> = Vec::new();
+    let mut sets: Vec<BTreeSet<usize>> = Vec::new();
+    for (sub, sc) in &c.replicas {
+        let set = target_set(&w, *sub);
+        let mut r = MemReplica::new_mem();
+        let mut sc = sc.clone();
+        sc.file = false;
+        run_script(&mut r, &w, &set, &sc, Flags::default())?;
+        reps.push(r);
+        sets.push(set);
+    }
+    let mut caches: Vec<Vec<PeerCache>> = (0..n).map(|_| (0..n).map(|_| PeerCache::new()).collect()).collect();
+    let mut transfers = 0usize;
+    let mut order: Vec<(usize, usize)> = c.syncs.iter().map(|(a, b)| (*a as usize % n, *b as usize % n)).filter(|(a, b)| a != b).collect();
+    // finish with two all-pairs rounds so that many replicas end up with equal sets
+    for _ in 0..2 {
+        for a in 0..n {
+            for b in 0..n {
+                if a != b {
+                    order.push((a, b));
+                }
+            }
+        }
+    }
+    for (k, (a, b)) in order.iter().enumerate() {
+        let (a, b) = (*a, *b);
+        let b_ids: BTreeSet<Id> = sets[b].iter().map(|i| w.cmds[*i].id).collect();
+        // split borrows: requester a, responder b
+        let (ra, rb) = if a < b {
+            let (x, y) = reps.split_at_mut(b);
+            (&mut x[a], &mut y[0])
+        } else {
+            let (x, y) = reps.split_at_mut(a);
+            (&mut y[0], &mut x[b])
+        };
+        let (ca, cb) = {
+            // caches[a][b] = what a knows b has; caches[b][a] = what b knows a has
+            let (lo, hi) = if a < b { (a, b) } else { (b, a) };
+            let (x, y) = caches.split_at_mut(hi);
+            if a < b { (&mut x[lo][b], &mut y[0][a]) } else { (&mut y[0][b], &mut x[lo][a]) }
+        };
+        match session(ra, rb, ca, cb, 7000 + k as u64, MAX_SYNC_MESSAGE_SIZE, &b_ids) {
+            Ok(s) => {
+                for (id, _) in &s.sent {
+                    if sets[a].insert(w.by_id[id]) {
+                        transfers += 1;
+                    }
+                }
+            }
+            Err(f) => return Err(f),
+        }
+    }
+    // every replica matches the model for what it holds, and equal sets give equal observations
+    let mut obs = Vec::new();
+    for (i, r) in reps.iter_mut().enumerate() {
+        check_state(r, &w, &sets[i], &format!("replica {i} after syncing"))?;
+        obs.push(r.obs().map_err(|e| Failure::new("observation failed", e))?);
+    }
+    let mut equal_pairs = 0;
+    for i in 0..n {
+        for j in i + 1..n {
+            if sets[i] == sets[j] {
+                equal_pairs += 1;
+                ensure!(obs[i].heads == obs[j].heads, "C01: replicas with the same commands report different head sets", "replicas {i} and {j} after sync topology");
+                ensure!(obs[i].facts == obs[j].facts, "C01: replicas with the same commands answer fact queries differently", "replicas {i} and {j} after sync topology");
+                ensure!(obs[i].hello == obs[j].hello, "C01: replicas with the same commands advertise different hello heads", "replicas {i} and {j} after sync topology");
+            }
+        }
+    }
+    if equal_pairs > 0 {
+        info.label("equal_sets_reached");
+    }
+    if transfers > 0 && equal_pairs > 0 {
+        info.nontrivial();
+    }
+    info.label(format!("replicas{n}"));
+    Ok(())
+}
+
 pub fn run(ctx: &Ctx, which: &str) -> ! {
     if let Ok(p) = std::env::var("VH_DDMIN") {
         ddmin(&p);
